@@ -720,6 +720,45 @@ func (r *Run) sessionScopedFields() {
 				}
 				why := scoped(fv.Type())
 				if why == "" {
+					// a plain value (an id, a counter, a flag) that is computed from session data where it is assigned:
+					// an entity id kept on the connection means something in the session it was read in only
+					for _, fn := range r.P.All {
+						if why != "" || (fn.Pkg.Types != pk.Types && fv.Pkg() != fn.Pkg.Types) {
+							continue
+						}
+						ast.Inspect(fn.Body, func(nd ast.Node) bool {
+							as, ok := nd.(*ast.AssignStmt)
+							if !ok || why != "" || !r.P.stmtAssignsField(fn.Info(), as, fv) || len(as.Lhs) != len(as.Rhs) {
+								return why == ""
+							}
+							for i, l := range as.Lhs {
+								se, ok := ast.Unparen(l).(*ast.SelectorExpr)
+								if !ok {
+									continue
+								}
+								if sel, ok := fn.Info().Selections[se]; !ok || sel.Obj() != types.Object(fv) {
+									continue
+								}
+								ast.Inspect(as.Rhs[i], func(k ast.Node) bool {
+									if e, ok := k.(ast.Expr); ok && why == "" {
+										if t := fn.Info().TypeOf(e); t != nil {
+											if nt, ok := derefNamed(t); ok && nt.Obj().Pkg() != nil {
+												pp := nt.Obj().Pkg().Path()
+												_, isStruct := nt.Underlying().(*types.Struct)
+												if isStruct && (pp == pkgModels || strings.HasPrefix(pp, repoMod+"/modules")) && scoped(t) != "" {
+													why = "a value computed from a " + shortPkg(pp) + "." + nt.Obj().Name()
+												}
+											}
+										}
+									}
+									return why == ""
+								})
+							}
+							return why == ""
+						})
+					}
+				}
+				if why == "" {
 					continue
 				}
 				ws := assignsOf(fv)
@@ -727,6 +766,19 @@ func (r *Run) sessionScopedFields() {
 					continue // set at construction only (configuration, e.g. the module list)
 				}
 				nFields++
+				if strings.HasPrefix(why, "a value computed from") {
+					// a plain value: fine wherever it is set, as long as the functions that bind or clear the session
+					// set it too (it is reset when the session changes)
+					reset := false
+					for _, w := range ws {
+						if assigners[w] {
+							reset = true
+						}
+					}
+					if reset {
+						continue
+					}
+				}
 				for _, w := range ws {
 					ok := assigners[w]
 					if !ok {
